@@ -2,6 +2,7 @@ package main
 
 import (
 	"fmt"
+	"strconv"
 	"go/ast"
 	"go/token"
 	"sort"
@@ -840,3 +841,128 @@ func extractMisc() {
 	emit("/-- `if len(m.Body) < N` guards in pipe.receiver, per package -/\n")
 	emit("def shortBodyGuards : List (String × GExpr) := [\n  %s]\n", strings.Join(rows, ",\n  "))
 }
+
+// ---------------------------------------------------------------- macat formats
+
+func extractMacat() {
+	p := loadPkg("macat")
+	fd := p.fn("App", "printMsg")
+	escapes := []string{}
+	hexfmt := ""
+	type bin struct {
+		tag   int64
+		guard *G
+	}
+	var bins []bin
+	asciiCond, quotedCond := "", ""
+	if fd == nil {
+		unrec("macat:printMsg", "function not found")
+	} else {
+		unq := func(e ast.Expr) ([]byte, bool) {
+			if bl, ok := e.(*ast.BasicLit); ok && bl.Kind == token.STRING {
+				s, err := strconvUnquote(bl.Value)
+				if err == nil {
+					return []byte(s), true
+				}
+			}
+			return nil, false
+		}
+		ast.Inspect(fd, func(x ast.Node) bool {
+			sw, ok := x.(*ast.SwitchStmt)
+			if !ok {
+				return true
+			}
+			tag := exprString(sw.Tag)
+			switch {
+			case tag == "msg.Body[i]":
+				for _, cs := range sw.Body.List {
+					cc := cs.(*ast.CaseClause)
+					if cc.List == nil {
+						ast.Inspect(cc, func(y ast.Node) bool {
+							if c, ok := y.(*ast.CallExpr); ok && exprString(c.Fun) == "fmt.Sprintf" && len(c.Args) >= 1 {
+								if b, ok := unq(c.Args[0]); ok {
+									hexfmt = string(b)
+								}
+							}
+							if ifs, ok := y.(*ast.IfStmt); ok {
+								quotedCond = exprString(ifs.Cond)
+							}
+							return true
+						})
+						continue
+					}
+					ch, ok1 := intOf(cc.List[0])
+					var repl []byte
+					ast.Inspect(cc, func(y ast.Node) bool {
+						if c, ok := y.(*ast.CallExpr); ok && strings.HasSuffix(exprString(c.Fun), "WriteString") && len(c.Args) == 1 {
+							if b, ok := unq(c.Args[0]); ok {
+								repl = b
+							}
+						}
+						return true
+					})
+					if !ok1 || repl == nil {
+						unrec("macat:printMsg", "quoted escape case")
+						continue
+					}
+					bs := []string{}
+					for _, b := range repl {
+						bs = append(bs, fmt.Sprint(b))
+					}
+					escapes = append(escapes, fmt.Sprintf("(%d, [%s])", ch, strings.Join(bs, ", ")))
+				}
+			case tag == "":
+				// the msgpack length switch
+				for _, cs := range sw.Body.List {
+					cc := cs.(*ast.CaseClause)
+					var tagv int64 = -1
+					ast.Inspect(cc, func(y ast.Node) bool {
+						if as, ok := y.(*ast.AssignStmt); ok && len(as.Lhs) == 1 && exprString(as.Lhs[0]) == "enc[0]" {
+							tagv, _ = intOf(as.Rhs[0])
+						}
+						return true
+					})
+					g := &G{Op: "tt"}
+					if cc.List != nil {
+						g = toG(cc.List[0], mapNamer(map[string]string{"len(msg.Body)": "len"}))
+					}
+					bins = append(bins, bin{tagv, g})
+				}
+			}
+			return true
+		})
+		// the ascii branch: if strconv.IsPrint(rune(msg.Body[i]))
+		walkIfs(fd, func(s *ast.IfStmt) {
+			if c := exprString(s.Cond); strings.Contains(c, "IsPrint") && asciiCond == "" {
+				asciiCond = c
+			}
+		})
+	}
+	emit("\n/-- macat printMsg: quoted escapes (byte, replacement bytes), hex format, msgpack forms -/\n")
+	emit("def macatEscapes : List (Nat × List Nat) := [%s]\n", strings.Join(escapes, ", "))
+	emit("def macatHexFormat : String := %s\n", leanStr(hexfmt))
+	emit("def macatPrintable : List String := %s\n", leanStrList([]string{asciiCond, quotedCond}))
+	rows := []string{}
+	for _, b := range bins {
+		rows = append(rows, fmt.Sprintf("(%d, %s)", b.tag, b.guard.Lean()))
+	}
+	emit("def macatBins : List (Int × GExpr) := [%s]\n", strings.Join(rows, ", "))
+	// Duration.UnmarshalText: bare integers are seconds
+	dur := []string{}
+	if fd := p.fn("Duration", "UnmarshalText"); fd != nil {
+		ast.Inspect(fd, func(x ast.Node) bool {
+			if as, ok := x.(*ast.AssignStmt); ok && len(as.Lhs) == 1 && exprString(as.Lhs[0]) == "*d" {
+				dur = append(dur, exprString(as.Rhs[0]))
+			}
+			if c, ok := x.(*ast.CallExpr); ok && (exprString(c.Fun) == "strconv.Atoi" || exprString(c.Fun) == "time.ParseDuration") {
+				dur = append(dur, exprString(c.Fun))
+			}
+			return true
+		})
+	} else {
+		unrec("macat:Duration.UnmarshalText", "function not found")
+	}
+	emit("def macatDuration : List String := %s\n", leanStrList(dur))
+}
+
+func strconvUnquote(s string) (string, error) { return strconv.Unquote(s) }
